@@ -354,5 +354,42 @@ theorem diff_ne_outOfFuel (old new : List α) : diff old new ≠ .outOfFuel := b
   · exact conquer_ne_outOfFuel old new (old.length + new.length + 1) 0 old.length 0 new.length _ _ (by omega)
   · intro b _ h; cases h
 
+/-! ### inputs on which `find_middle_snake` is never reached -/
+
+omit [LawfulBEq α] in
+theorem diff_nil_left (b : List α) :
+    diff ([] : List α) b = .ok (if b.length = 0 then [] else [Hook.insert 0 0 b.length]) := by
+  cases b with
+  | nil => simp [diff, diffFuel, conquer, commonPrefixLen, commonSuffixLen, isEmptyRange, Res.bind]
+  | cons x xs =>
+    simp [diff, diffFuel, conquer, commonPrefixLen, commonSuffixLen, isEmptyRange, Res.bind]
+
+omit [LawfulBEq α] in
+theorem diff_nil_right (a : List α) :
+    diff a ([] : List α) = .ok (if a.length = 0 then [] else [Hook.delete 0 a.length 0]) := by
+  cases a with
+  | nil => simp [diff, diffFuel, conquer, commonPrefixLen, commonSuffixLen, isEmptyRange, Res.bind]
+  | cons x xs =>
+    simp [diff, diffFuel, conquer, commonPrefixLen, commonSuffixLen, isEmptyRange, Res.bind]
+
+theorem prefixCount_self (a : List α) : ∀ k i, i + k ≤ a.length → prefixCount a a i i k = k := by
+  intro k
+  induction k with
+  | zero => intro i _; simp [prefixCount]
+  | succ k ih =>
+    intro i h
+    have hi : i < a.length := by omega
+    simp [prefixCount, List.getElem?_eq_getElem hi, ih (i+1) (by omega)]
+
+theorem diff_self (a : List α) :
+    diff a a = .ok (if a.length = 0 then [] else [Hook.equal 0 0 a.length]) := by
+  cases a with
+  | nil => simp [diff, diffFuel, conquer, commonPrefixLen, commonSuffixLen, isEmptyRange, Res.bind]
+  | cons x xs =>
+    have hp : commonPrefixLen (x :: xs) 0 (xs.length + 1) (x :: xs) 0 (xs.length + 1) = xs.length + 1 := by
+      simp [commonPrefixLen, isEmptyRange]
+      exact prefixCount_self (x :: xs) (xs.length + 1) 0 (by simp)
+    simp [diff, diffFuel, conquer, hp, commonSuffixLen, isEmptyRange, Res.bind]
+
 end
 end AmVerif.Myers
